@@ -183,7 +183,7 @@ def NonMutating : Op → Option Nat
   | .wod v => some v
   | .clone v _ => some v
   | .copy v _ _ => some v
-  | .neg v => some v
+  | .neg v _ _ => some v
   | .pickle v _ _ => some v
   | _ => none
 
@@ -491,5 +491,47 @@ theorem sealed_constant (s : State) (i : Nat) (o : Obj) (ops : List Op)
   rw [hd', hdo]
   simp only [Option.map_some]
   rw [obsCore_constant s (run s ops) d d' he hds dv dm du]
+
+/-! #### the guard table and the state machine say the same thing -/
+
+/-- how the state machine treats the operation that stands for a method of the library (hand-written: this is the
+    reading of `step` that the theorems below justify) -/
+def modelKindOf (owner name : String) : Option GuardKind :=
+  if name == "set_units" || name == "delete_deriv" || name == "delete_derivs" then some .unlessOverride
+  else if name == "insert_deriv" || name == "insert_derivs" then some .unlessOverrideOrNewKey
+  else if owner == "Polynomial" || name == "__idiv__" then some .delegate
+  else if owner == "Boolean" || (owner == "Matrix" && (name == "__ifloordiv__" || name == "__imod__")) then
+    some .unsupported
+  else if ["__setitem__", "__iadd__", "__isub__", "__imul__", "__itruediv__", "__ifloordiv__", "__imod__", "__ipow__",
+           "__iand__", "__ior__", "__ixor__"].contains name then some .always
+  else none
+
+/-- `table_matches_model`: for every mutator found in the source, the classification read off its control-flow paths
+    (regenerated on every run) is the classification the state machine implements.  A method whose guard is moved,
+    dropped, made conditional, or a new mutator that the model does not know, breaks this `decide`. -/
+theorem table_matches_model :
+    PMV.Gen.Guards.table.all (fun m => modelKindOf m.owner m.name == some (kindOf m)) = true := by decide
+
+/-- what the classifications mean in the state machine, `always`: see `mutator_rejected` (ValueError, state unchanged).
+    `unsupported`: TypeError before anything else, read-only or not -/
+theorem unsupported_is_type_error (s : State) (v : Nat) (fast : Bool) : step s (.iop v fast true) = (s, .err .type) := by
+  simp [step, iop]
+
+/-- `unlessOverride`, the accepting half: with `override=True` the call goes through on a read-only object
+    (the rejecting half is `mutator_rejected`) -/
+theorem override_accepted (s : State) (v : Nat) (o : Obj) (ho : s.objs[v]? = some o) (hu : o.unitsOk = true) (u k : Nat) :
+    (step s (.setUnits v u true)).2 = .ok ∧ (step s (.deleteDeriv v k true)).2 = .ok ∧
+    (step s (.deleteDerivs v true)).2 = .ok := by
+  simp [step, setUnits, deleteDeriv, deleteDerivs, ho, hu]
+
+/-- `unlessOverrideOrNewKey`, the accepting half: a NEW derivative, or `override=True`, is accepted on a read-only
+    object -/
+theorem new_key_or_override_accepted (s : State) (v k d : Nat) (o od : Obj) (ov : Bool)
+    (ho : s.objs[v]? = some o) (hd : s.objs[d]? = some od) (hok : o.derivsOk = true)
+    (h : hasKey o.derivs k = false ∨ ov = true) :
+    (step s (.insertDeriv v k d ov)).2 = .ok := by
+  cases h with
+  | inl hk => simp [step, insertDeriv, ho, hd, hok, hk]
+  | inr hov => simp [step, insertDeriv, ho, hd, hok, hov]
 
 end PMV.ReadOnly
